@@ -251,6 +251,32 @@ package reconciler
 //@   property C15
 //@   flag nosafety
 //@   ensures @new-pending-id GH_ids[nil] == old(GH_ids)[nil] + 1 && result.ID == GH_ids[nil] && result.Kind == StatusKindRefreshing
+//@ func StatusDone
+//@   property C15
+//@   flag nosafety
+//@   ensures @done-with-a-new-id GH_ids[nil] == old(GH_ids)[nil] + 1 && result.ID == GH_ids[nil] && result.Kind == StatusKindDone && result.Error == nil
+//@ func StatusError
+//@   property C15
+//@   flag nosafety
+//@   flag dyncall.Error=pure
+//@   ensures @error-with-a-new-id GH_ids[nil] == old(GH_ids)[nil] + 1 && result.ID == GH_ids[nil] && result.Kind == StatusKindError && result.Error != nil
+// StatusSet.Get (C15): a reconciler that has no entry yet is pending under the SET's id (so the
+// status written back for it is matched against the version it was read from); an entry is
+// returned as stored. Set never writes the array it shares with the receiver's other copies.
+//@ func StatusSet.Get
+//@   property C15
+//@   flag nosafety
+//@   flag dyncall.f=pure
+//@   ensureslocal @missing-entry-is-pending-under-the-set-id idx < 0 ==> result.Kind == StatusKindPending && result.ID == s.id
+//@   ensureslocal @stored-entry-is-returned-as-it-is idx >= 0 ==> result.Kind == *s.statuses[idx].Kind && result.ID == s.statuses[idx].ID
+//@ func StatusSet.Set
+//@   property C15
+//@   flag nosafety
+//@   flag dyncall.f=pure
+//@   flag dyncall.cmp=pure
+//@   ensures @the-array-shared-with-other-copies-keeps-its-entries forall i int :: 0 <= i && i < len(s.statuses) ==> s.statuses[i].ID == old(s.statuses[i].ID) && *s.statuses[i].Kind == old(*s.statuses[i].Kind)
+//@   ensures @works-on-a-private-array fresh(result.statuses) || len(result.statuses) == 0
+//@   ensures @id-kept result.id == s.id
 //@ func NewStatusSet
 //@   property C15
 //@   flag nosafety
